@@ -509,13 +509,14 @@ class Frame:
             self.env[t.id] = self.I.binop(type(s.op), cur, self.ev(s.value))
         elif isinstance(t, ast.Attribute):
             obj = self.ev(t.value)
-            cur = self.get_attr(obj, t.attr)
+            attr = self.mangle(t.attr)
+            cur = self.get_attr(obj, attr)
             rhs = self.ev(s.value)
             if isinstance(cur, (list, bytearray, SBytes)) and isinstance(s.op, ast.Add):
                 self.I.ctx.writes.append((cur, "inplace", None))
-                self.set_attr(obj, t.attr, self.inplace_add(cur, rhs))
+                self.set_attr(obj, attr, self.inplace_add(cur, rhs))
             else:
-                self.set_attr(obj, t.attr, self.I.binop(type(s.op), cur, rhs))
+                self.set_attr(obj, attr, self.I.binop(type(s.op), cur, rhs))
         elif isinstance(t, ast.Subscript):
             obj = self.ev(t.value)
             idx = self.ev_index(obj, t.slice)
@@ -634,7 +635,7 @@ class Frame:
             for tt, vv in zip(t.elts, vs):
                 self.store(tt, vv)
         elif isinstance(t, ast.Attribute):
-            self.set_attr(self.ev(t.value), t.attr, v)
+            self.set_attr(self.ev(t.value), self.mangle(t.attr), v)
         elif isinstance(t, ast.Subscript):
             obj = self.ev(t.value)
             self.store_subscript(obj, self.ev_index(obj, t.slice), v)
@@ -751,8 +752,18 @@ class Frame:
         except AttributeError:
             raise NameError("name '%s' is not defined" % e.id) from None
 
+    def mangle(self, name):
+        """private name mangling inside a class body (__x -> _Class__x)"""
+        if name.startswith("__") and not name.endswith("__"):
+            qn = self.f.__qualname__.split(".")
+            if len(qn) >= 2 and qn[-2] != "<locals>":
+                cls = qn[-2].lstrip("_")
+                if cls:
+                    return "_%s%s" % (cls, name)
+        return name
+
     def e_Attribute(self, e):
-        return self.get_attr(self.ev(e.value), e.attr)
+        return self.get_attr(self.ev(e.value), self.mangle(e.attr))
 
     def e_BinOp(self, e):
         a = self.ev(e.left)
